@@ -80,6 +80,8 @@ path = "{sim}/real/src/main.rs"
 nucleo = {{ path = "shadow/nucleo" }}
 rayon = "1.7.0"
 nucleo-verif-rt = {{ path = "{sim}/rt", default-features = false }}
+serde = {{ version = "1", features = ["derive"] }}
+serde_json = "1"
 
 [profile.release]
 opt-level = 2
